@@ -154,4 +154,41 @@ def settledWhy (a b : Config) (sc : Scripts) : String :=
   else if !((a.acls.map (·.1)).all fun n => !isTagged n || prot.contains n || cp.any fun p => p.1 == n) then "generated-acl-not-compared"
   else "ok"
 
+/-! ## The differ's answer on equal lists (`IdentityDiffer`), suppressed moves -/
+
+/-- The script of this pair is the identity: both lists empty, or a valid script in which every cell
+is kept on both sides — then the two lists are equal line by line.  A correct differ returns exactly
+this on equal lists (`IdentityDiffer`, checked on the real library on every run). -/
+def identityOn (al bl : List ALine) (rs : List Range) : Bool :=
+  (al.isEmpty && bl.isEmpty) ||
+  (!al.isEmpty &&
+    match pairCells al bl rs with
+    | some M => M.all fun c => c.old && c.new
+    | none => false)
+
+def opIsAddMove : NA.Acl.IOp → Bool
+  | .add _ _ => true
+  | .move _ _ _ => true
+  | _ => false
+
+/-- No move of this pair's plan is suppressed: the plan holds an `add` or a `move` for every line that is
+only in the target (hypothesis `hcount` of `ios_plan_converges_no_suppression_partial`: the ACL ends as
+exactly the target's list). -/
+def noSupprPair (al bl : List ALine) (rs : List Range) : Bool :=
+  al.isEmpty ||
+  match pairCells al bl rs with
+  | some M => !(M.any fun c => c.old && c.new) ||
+      ((NA.Acl.planIOS M).filter opIsAddMove).length == (NA.Acl.addIdx M).length
+  | none => false
+
+/-- … in the whole run. -/
+def noSupprRun (r : Result) : Bool :=
+  r.acts.all fun
+    | .edit _ al bl rs => noSupprPair al bl rs
+    | _ => true
+
+/-- The lists are equal line by line (text, text without `log`, action). -/
+def linesEqB (al bl : List ALine) : Bool :=
+  (al.map fun l => (l.text, l.nolog, l.act)) == (bl.map fun l => (l.text, l.nolog, l.act))
+
 end NA.F2
